@@ -439,6 +439,9 @@ class AsyncPettingZooVecEnv(PettingZooVecEnv):
                 function(timeout)
         except mp.TimeoutError:
             terminate = True
+        except Exception:
+            # A failed pending call must not prevent the clean up
+            terminate = True
 
         if terminate:
             for process in self.processes:
@@ -447,11 +450,18 @@ class AsyncPettingZooVecEnv(PettingZooVecEnv):
         else:
             for pipe in self.parent_pipes:
                 if (pipe is not None) and (not pipe.closed):
-                    pipe.send(("close", None))
+                    try:
+                        pipe.send(("close", None))
+                    except (BrokenPipeError, OSError):
+                        # The worker is already gone
+                        pass
 
             for pipe in self.parent_pipes:
                 if (pipe is not None) and (not pipe.closed):
-                    pipe.recv()
+                    try:
+                        pipe.recv()
+                    except (EOFError, OSError):
+                        pass
 
         for pipe in self.parent_pipes:
             if pipe is not None:
